@@ -46,6 +46,89 @@ def lib_sites(ctx, name):
     return [(b, bi) for (b, bi) in ctx.cg.call_sites(name) if b['crate'] in LIBS]
 
 
+class Task:
+    """the coroutine body that runs as a spawned upload task.
+      path     its body path
+      form     'closure' (an `async move { .. }` block written inside the spawner) or 'method' (the body of a private
+               async fn whose future the spawner hands to spawn, e.g. `set.spawn(task.run())`)
+      fn       for 'method': the async fn's path"""
+
+    def __init__(self, path, form, fn=None):
+        self.path, self.form, self.fn = path, form, fn
+
+    def spawned_in(self, a, spawn_block):
+        """is this task what the spawn call in analysis `a` spawns?"""
+        from .core import strip_generics
+        arg = a.arg(spawn_block, 1)
+        if self.form == 'closure':
+            return flow.mentions(arg, lambda e: e[0] == 'agg' and e[2] == self.path)
+        return flow.mentions(arg, lambda e: e[0] == 'call' and strip_generics(e[1]) == strip_generics(self.fn))
+
+
+def _capture_of(task, ctx, a, spawn_block, node):
+    """the spawner-side expression of a value the task body refers to: `node` is ('upvar', name) or
+    ('field', ('upvar', 'self'), name) in the task body."""
+    from .core import strip_generics
+    arg = a.arg(spawn_block, 1)
+    if task.form == 'closure':
+        aggs = [z for z in flow.subtrees(arg) if z[0] == 'agg' and z[2] == task.path]
+        if not aggs or node[0] != 'upvar':
+            return None
+        return dict(aggs[0][3]).get(node[1])
+    calls = [z for z in flow.subtrees(arg) if z[0] == 'call' and strip_generics(z[1]) == strip_generics(task.fn)]
+    fb = ctx.F.bodies.get(task.fn)
+    if not calls or fb is None:
+        return None
+    names = [l.get('n') for l in fb['locals'][1:fb['argc'] + 1]]
+    if node[0] == 'upvar' and node[1] in names:
+        i = names.index(node[1])
+        return calls[0][2][i] if i < len(calls[0][2]) else None
+    if node[0] == 'field' and node[1] == ('upvar', 'self') and 'self' in names:
+        recv = calls[0][2][names.index('self')]
+        if recv[0] == 'agg':
+            return dict(recv[3]).get(node[2])
+    return None
+
+
+Task.capture_of = _capture_of
+
+
+def find_task(ctx, callee, spawner):
+    """Discover the task body from the store call it must contain: the only library call site of `callee` lies either
+    in an async block inside `spawner` or in a private async fn of crate `data` that is called only from `spawner`
+    (its future being handed to JoinSet::spawn).  Fails closed (AnchorMissing) otherwise."""
+    from .facts import AnchorMissing
+    cache = ctx.__dict__.setdefault('_tasks', {})
+    if callee in cache:
+        return cache[callee]
+    sites = lib_sites(ctx, callee)
+    if len(sites) != 1:
+        raise AnchorMissing('expected exactly one call site of %s in data/deduplication, found %d (%s)' % (callee, len(sites), sorted(b['qpath'] for b, _ in sites)))
+    P = sites[0][0]['qpath']
+    t = None
+    if P.startswith(spawner + '::{closure#0}::{closure#'):
+        t = Task(P, 'closure')
+    elif P.endswith('::{closure#0}'):
+        fq = P[:-len('::{closure#0}')]
+        fb = ctx.F.bodies.get(fq)
+        if fb is not None and fb['crate'] == 'data' and not fb.get('exported'):
+            callers = {b['qpath'] for b, _ in ctx.cg.call_sites(fq)}
+            if callers and all(c.startswith(spawner + '::{closure#0}') for c in callers):
+                t = Task(P, 'method', fq)
+    if t is None:
+        raise AnchorMissing('%s is called from %s, which is neither an async block of %s nor a private async fn called only from it' % (callee, P, spawner))
+    cache[callee] = t
+    return t
+
+
+def xorb_task(ctx):
+    return find_task(ctx, PUT, REG)
+
+
+def shard_task(ctx):
+    return find_task(ctx, UPLOAD_SHARD, UPL)
+
+
 def run(ctx):
     F = ctx.F
     ctx.rule('R16a', 'UploadClient::put is called only from the task spawned in register_new_xorb_for_upload (crate-private, two callers); '
@@ -66,7 +149,7 @@ def r16a(ctx):
     ctx.floor('R16a', 'call sites of UploadClient::put in data/deduplication', len(put_sites), 1)
     for b, bi in put_sites:
         a = an(b)
-        ctx.check(b['qpath'] == TASK, 'R16a', b['qpath'], 'UploadClient::put', a.loc(bi),
+        ctx.check(b['qpath'] == _task_path(ctx, xorb_task), 'R16a', b['qpath'], 'UploadClient::put', a.loc(bi),
                   'put is called from the upload task spawned by register_new_xorb_for_upload',
                   'UploadClient::put called outside the upload task of register_new_xorb_for_upload')
     reg = F.body(REG)
@@ -79,7 +162,7 @@ def r16a(ctx):
     us = lib_sites(ctx, UPLOAD_SHARD)
     ctx.floor('R16a', 'call sites of RegistrationClient::upload_shard in data/deduplication', len(us), 1)
     for b, bi in us:
-        ctx.check(b['qpath'] == SHARDTASK, 'R16a', b['qpath'], 'upload_shard', an(b).loc(bi),
+        ctx.check(b['qpath'] == _task_path(ctx, shard_task), 'R16a', b['qpath'], 'upload_shard', an(b).loc(bi),
                   'upload_shard is called from the task spawned by upload_and_register_session_shards',
                   'upload_shard called outside upload_and_register_session_shards')
     upl = F.body(UPL)
@@ -89,6 +172,14 @@ def r16a(ctx):
     ctx.check(callers == [FIN], 'R16a', UPL, 'callers', '-',
               'the only caller of upload_and_register_session_shards is finalize_impl',
               'unexpected caller set of upload_and_register_session_shards: %s' % callers)
+
+
+def _task_path(ctx, finder):
+    from .facts import AnchorMissing
+    try:
+        return finder(ctx).path
+    except AnchorMissing:
+        return None
 
 
 def is_field_of_self(e, field):
@@ -210,6 +301,9 @@ def r16b(ctx):
 def r16c(ctx):
     F = ctx.F
     # (1) the upload task: put(..).await? -> task output
+    xt = xorb_task(ctx)
+    st = shard_task(ctx)
+    TASK, SHARDTASK = xt.path, st.path
     a = an(F.body(TASK))
     puts = a.calls(PUT)
     for p in puts:
@@ -218,7 +312,7 @@ def r16c(ctx):
     # the task must be what is spawned into xorb_upload_tasks
     ar = an(F.body(REGC))
     spawns = ar.calls('tokio::task::join_set::JoinSet::spawn')
-    okspawn = any(flow.mentions(ar.arg(s, 1), lambda e: e[0] == 'agg' and e[2] == TASK) and is_field_of_self(ar.arg(s, 0), 'xorb_upload_tasks') for s in spawns)
+    okspawn = any(xt.spawned_in(ar, s) and is_field_of_self(ar.arg(s, 0), 'xorb_upload_tasks') for s in spawns)
     ctx.check(okspawn, 'R16c', REGC, 'spawn', '-', 'the put task is spawned into self.xorb_upload_tasks (its output is the task result)')
     # (2) join sites: every join on the xorb task set anywhere in the library crates (and the shard task set in
     # upload_and_register_session_shards) inspects both the JoinError and the task's own error
@@ -259,7 +353,7 @@ def r16c(ctx):
         ctx.check(ok, 'R16c', SHARDTASK, 'upload_shard', ast.loc(u), 'upload_shard result: ' + d, 'upload_shard result dropped: ' + d)
     au = an(F.body(UPLC))
     sp = au.calls('tokio::task::join_set::JoinSet::spawn')
-    ctx.check(any(flow.mentions(au.arg(s, 1), lambda e: e[0] == 'agg' and e[2] == SHARDTASK) for s in sp) and
+    ctx.check(any(st.spawned_in(au, s) for s in sp) and
               all(au.rooted_at(au.arg(j, 0), au.root_call(au.arg(sp[0], 0))[3]) if sp and au.root_call(au.arg(sp[0], 0)) else False for j in au.calls('tokio::task::join_set::JoinSet::join_next')),
               'R16c', UPLC, 'spawn', '-', 'the shard task is spawned into the JoinSet that the join loop drains')
     # (3) census: every call of an upload-failure carrier in data / deduplication propagates.  Carriers: the CHAIN seeds,
@@ -295,7 +389,9 @@ def r16c(ctx):
             if not is_async and ('Future' in ret_ty or 'async fn body' in ret_ty or 'Pin<' in ret_ty):
                 # a future that is not awaited in this body: fine only if it is returned / handed on as a value
                 direct = [1 for (_, _, k_, e) in ab.ret_sites() if ab.rooted_at(e, bi)]
-                ctx.check(bool(direct), 'R16c', b['qpath'], short(name), ab.loc(bi), 'future of %s is returned to the caller' % short(name),
+                # or handed to JoinSet::spawn in this body (the set's join sites are held to rule (2))
+                direct += [1 for s_ in ab.calls('tokio::task::join_set::JoinSet::spawn') if flow.mentions(ab.arg(s_, 1), lambda z: ab.rooted_at(z, bi))]
+                ctx.check(bool(direct), 'R16c', b['qpath'], short(name), ab.loc(bi), 'future of %s is returned to the caller or spawned into a joined task set' % short(name),
                           'future of %s is created but neither awaited nor returned: its error is lost' % short(name))
                 continue
             ok, d = propagation(ab, bi)
@@ -312,7 +408,9 @@ def r16e(ctx):
     from .core import edges_where, strip_generics as sg
     F = ctx.F
     a = an(F.body(REGC))
-    sp = [s_ for s_ in a.calls('tokio::task::join_set::JoinSet::spawn') if flow.mentions(a.arg(s_, 1), lambda e: e[0] == 'agg' and e[2] == TASK)]
+    xt = xorb_task(ctx)
+    TASK = xt.path
+    sp = [s_ for s_ in a.calls('tokio::task::join_set::JoinSet::spawn') if xt.spawned_in(a, s_)]
     if not ctx.check(len(sp) == 1, 'R16e', REGC, 'spawn', '-', 'one spawn of the put task'):
         return
     empty = edges_where(a, lambda op, l, r: op == 'Eq' and l[0] == 'call' and sg(l[1]).endswith('RawXorbData::num_bytes') and r == ('const', 0, 'usize'))
@@ -321,10 +419,8 @@ def r16e(ctx):
         ok = a.cfg.must_pass(b, via_blocks=sp, also_cut_edges=empty)
         ctx.check(ok, 'R16e', REGC, 'Ok<-spawn', a.loc(b, si), 'a successful return passed the spawn of this xorb\'s upload task (or the xorb is empty)',
                   'register_new_xorb_for_upload can report success for a non-empty xorb without having spawned its upload: the shard will reference a xorb that is never stored')
-    # the coroutine's captured upvars derive from the xorb parameter
-    agg = [z for z in flow.subtrees(a.arg(sp[0], 1)) if z[0] == 'agg' and z[2] == TASK][0]
-    caps = dict(agg[3])
-    # name-agnostic: the put argument is a captured variable of the task; that capture is xorb.<method>() here
+    # name-agnostic: the put argument is a value captured by the task (closure capture, or parameter / field of the
+    # struct handed to the task method); that capture is xorb.<method>() in register_new_xorb_for_upload
     want = [(2, 'hash', 'RawXorbData::hash'), (3, 'data', 'RawXorbData::to_vec'), (4, 'chunk boundaries', 'chunks_and_boundaries')]
     t = an(F.body(TASK))
     ps = t.calls(PUT)
@@ -333,17 +429,18 @@ def r16e(ctx):
     roots = []
     for (i, what, meth) in want:
         arg = t.arg(ps[0], i)
-        ups_ = sorted({z[1] for z in flow.subtrees(arg) if z[0] == 'upvar'})
-        direct = arg[0] == 'upvar' or (i == 2 and len(ups_) == 1)
-        if not ctx.check(direct and len(ups_) == 1, 'R16e', TASK, 'put.arg%d' % i, t.loc(ps[0]), 'the %s handed to put is a value captured by the task (%s)' % (what, ups_),
+        refs = [z for z in flow.subtrees(arg) if z[0] == 'upvar' and z[1] != 'self' or (z[0] == 'field' and z[1] == ('upvar', 'self'))]
+        refs = [z for k_, z in enumerate(refs) if z not in refs[:k_]]
+        direct = (arg in refs) or (i == 2 and len(refs) == 1)
+        if not ctx.check(direct and len(refs) == 1, 'R16e', TASK, 'put.arg%d' % i, t.loc(ps[0]), 'the %s handed to put is a value captured by the task (%s)' % (what, [flow.show(z) for z in refs]),
                          'the %s handed to put is not simply a value captured from register_new_xorb_for_upload' % what):
             continue
-        e = caps.get(ups_[0])
+        e = xt.capture_of(ctx, a, sp[0], refs[0])
         recv = [z for z in flow.subtrees(e) if z[0] == 'call' and sg(z[1]).endswith(meth)] if e is not None else []
         srcs_ = sorted({(y[0], y[1] if y[0] == 'upvar' else y[2]) for z in recv for y in flow.subtrees(z[2][0]) if y[0] in ('upvar', 'param', 'local')}) if recv else []
         roots.append(srcs_)
         ok = len(recv) == 1 and len(srcs_) == 1 and srcs_[0][0] in ('upvar', 'param')
-        ctx.check(ok, 'R16e', REGC, 'task.' + what, a.loc(sp[0]), 'the task captures %s = xorb.%s()' % (ups_[0], meth.split('::')[-1]),
+        ctx.check(ok, 'R16e', REGC, 'task.' + what, a.loc(sp[0]), 'the task captures %s = xorb.%s()' % (flow.show(refs[0]), meth.split('::')[-1]),
                   'the upload task\'s %s does not derive from the xorb being registered' % what)
     nx = [l for l in F.body(REG)['locals'][1:F.body(REG)['argc'] + 1] if 'RawXorbData' in l.get('ty', l.get('t', ''))]
     ctx.check(len(roots) == 3 and all(r_ == roots[0] for r_ in roots) and len(nx) == 1, 'R16e', REGC, 'same xorb', a.loc(sp[0]),
